@@ -14,7 +14,7 @@ CHECKS["C14"] = {
         "go/ssa translation of the Go source; engine semantics of the SSA instructions; z3",
     ],
     "harnesses": [
-        {"pkg": "complexity", "harness": "Harness_C14_safeAdd", "reach": ["safeAdd.compared"],
+        {"pkg": "complexity", "harness": "Harness_C14_safeAdd", "reach": ["safeAdd.compared"], "cross_solvers": ["z3", "cvc5"],
          "what": "complexity.safeAdd vs saturating reference, all 2^128 operand pairs (64-bit bit-vectors, no bound)"},
         {"pkg": "graphql/handler/extension", "harness": "Harness_C14_walk", "setup": "Setup_C14_walk", "reach": ["c14.walk"], "workers": 6,
          "what": "complexity.Calculate vs documented definition on 6 corpus operations (interface, union, fragments, aliases), custom costs symbolic (defined?, 64-bit constant) per (type, field)"},
@@ -35,7 +35,7 @@ CHECKS["C08"] = {
          "what": "MarshalString / MarshalID through the Marshaler interface on every byte string of length n"},
         {"pkg": "graphql", "harness": "Harness_C08_intRoundTrip", "reach": ["c08.ints"], "quick": {"sample_models": 100},
          "what": "Marshal{Int,Int64,Int32,Uint64,Uint32,IntID,UintID} -> JSON decode -> Unmarshal* on a 12-value boundary grid"},
-        {"pkg": "graphql", "harness": "Harness_C08_float", "reach": ["c08.float"],
+        {"pkg": "graphql", "harness": "Harness_C08_float", "reach": ["c08.float"], "cross_solvers": ["z3", "cvc5"],
          "what": "MarshalFloatContext: error iff non-finite, for every float64 bit pattern (FloatingPoint theory)"},
     ],
 }
@@ -263,7 +263,7 @@ CHECKS["C02"] = {
     "prepare": probes.prepare,
     "assumptions": ["strconv runs interpreted from source on the concrete boundary grid; typed inputs are symbolic at full width"],
     "harnesses": [
-        {"pkg": "graphql", "harness": "Harness_C02_typedInts", "reach": ["c02.typed"], "workers": 6,
+        {"pkg": "graphql", "harness": "Harness_C02_typedInts", "reach": ["c02.typed"], "workers": 6, "cross_solvers": ["z3", "cvc5"],
          "what": "Unmarshal{Int,Int64,Int32,Uint,Uint64,Uint32,IntID,UintID} on typed inputs (int, int64, int32, uint64) with symbolic 64-bit values: accepted => mathematically unchanged; in-range => accepted"},
         {"pkg": "graphql", "harness": "Harness_C02_stringInts", "reach": ["c02.strings"], "workers": 6, "quick": {"sample_models": 200, "sample_every": 3},
          "what": "the same functions on string / json.Number inputs from a 30-entry boundary grid"},
